@@ -503,13 +503,18 @@ int64_t cmi_pool_acquire_inner(struct cmb_resourcepool *rpp,
         /* Wait at the front door until some more becomes available  */
         cmb_assert_debug(rem_claim > 0u);
         const int64_t sig = cmb_resourceguard_wait(&(rpp->guard), is_available, NULL);
-        if (sig == CMB_PROCESS_PREEMPTED) {
-            /* Got thrown out instead, unwind. */
-            cmb_logger_info(stdout, "Preempted, returning empty-handed");
+        if ((sig != CMB_PROCESS_SUCCESS)
+             && (cmb_resourcepool_held_by_process(rpp, caller) == 0u)) {
+            /*
+             * Got thrown out of this pool instead (the preemptor took our
+             * record), or never got anything. Nothing to put back, unwind.
+             */
+            cmb_logger_info(stdout, "Signal %" PRId64 ", returning empty-handed", sig);
 
             return sig;
         }
         else if (sig != CMB_PROCESS_SUCCESS) {
+            /* Including being preempted from some other resource, not this */
             cmb_logger_info(stdout,
                             "Interrupted by signal %" PRId64 ", returning unchanged",
                             sig);
